@@ -32,7 +32,7 @@ Proof.
   destruct (TInv_stack_nonempty _ I L) as (r & rest & Er & Nr).
   apply TInv_set_stack; try assumption.
   - rewrite Er. unfold vpush. simpl. eauto.
-  - destruct I2 as [A _]. unfold handles_of in A. inversion A as [|x l _ A1]; subst.
+  - destruct I2 as [A _]. unfold state_handles in A. pose proof A as A1.
     apply Forall_app in A1. destruct A1 as [A1 _]. unfold vpush. apply Forall_app. split; [exact A1 | constructor; [exact K | constructor]].
   - unfold tcount in T. unfold tcount_of, vpush. rewrite filter_length_app. cbn [filter].
     destruct (is_template s h); simpl; lia.
@@ -67,7 +67,7 @@ Lemma wp_should_attach s0 s tg (Q : bool -> st -> Prop) :
   wp (should_attach_declarative_shadow tg) Q s.
 Proof.
   intros K L H. unfold should_attach_declarative_shadow. rewrite wp_bind.
-  eapply wp_appropriate_place; [exact K | exact L |]. intros ip s1 K1 SL. rewrite wp_bind, wp_get, wp_ret. apply H; assumption.
+  eapply wp_appropriate_place; [exact K | exact L | discriminate |]. intros ip s1 K1 SL _. rewrite wp_bind, wp_get, wp_ret. apply H; assumption.
 Qed.
 
 (* insert an HTML template element (after its template mode was pushed) *)
@@ -121,7 +121,7 @@ Proof.
   destruct b; [|apply Plain; assumption].
   rewrite wp_bind. apply wp_probe. rewrite wp_bind, wp_get, wp_bind, wp_unwrap.
   set (s5 := set_out _ s4).
-  assert (I5 : TInv s5) by (eapply TInv_core_eq; [apply core_eq_set_out | exact I4]).
+  assert (I5 : TInv s5) by (eapply TInv_core_eq; [(apply core_eq_set_out; reflexivity) | exact I4]).
   destruct (TInv_vlast _ I5 L4) as [host0 V]. exists host0. split; [exact V|].
   rewrite wp_bind.
   assert (Host : forall sx (Q : handle -> st -> Prop), (forall x, Q x sx) ->
@@ -132,7 +132,7 @@ Proof.
   apply Host. intros _sh. rewrite wp_bind.
   (* insert_foreign_element tg ns_html true *)
   unfold insert_foreign_element. rewrite wp_bind.
-  eapply (wp_appropriate_place s5); [apply keeps_refl; exact I5 | exact L4 |]. intros ip s6 K6 [E6 _].
+  eapply (wp_appropriate_place s5); [apply keeps_refl; exact I5 | exact L4 | discriminate |]. intros ip s6 K6 [E6 _] _.
   rewrite wp_bind. unfold wp at 1. rewrite sink_create_element_eq.
   set (h := next_handle s6). set (s7 := new_elem_state _ _ _ s6).
   assert (K7 : keeps s5 s7) by (apply new_elem_keeps; exact K6).
@@ -160,7 +160,7 @@ Proof.
         replace (length (open_elems s7) + 1 - 1) with (length (open_elems s7)) by lia.
         rewrite firstn_app, firstn_all, Nat.sub_diag. cbn [firstn]. apply app_nil_r. }
       assert (S79 : stable s7 s9).
-      { eapply stable_trans; [|exact S9]. constructor; try reflexivity. exists []. simpl. rewrite app_nil_r. reflexivity. }
+      { eapply stable_trans; [|exact S9]. apply stable_eqs; reflexivity. }
       rewrite (tcount_stable s7 s9 I7 S79 E9'), (st_tm _ _ S79).
       assert (E7 : open_elems s7 = open_elems s5) by (cbn; exact E6).
       rewrite (tcount_stable s5 s7 I5 S7 E7), (st_tm _ _ S7). exact T4.
@@ -193,7 +193,7 @@ Lemma wp_in_head_template_end s t :
 Proof.
   intros I L NS. unfold in_head_template_end. rewrite wp_bind, wp_get.
   destruct (negb (in_html_elem_named s (nm "template"))) eqn:Neg.
-  { apply wp_unexpected. split; [eapply TInv_core_eq; [apply core_eq_set_out | exact I] | reflexivity]. }
+  { apply wp_unexpected. split; [eapply TInv_core_eq; [(apply core_eq_set_out; reflexivity) | exact I] | reflexivity]. }
   apply negb_false_iff in Neg. unfold in_html_elem_named in Neg. apply existsb_exists in Neg. destruct Neg as (x & Hin & Hx).
   apply ename_eqb_eq in Hx.
   rewrite wp_bind.
@@ -234,7 +234,7 @@ Proof.
     - rewrite (st_mode _ _ S6). cbn. rewrite (st_mode _ _ S4), (st_mode _ _ S2), (st_mode _ _ S1). exact NS.
     - intro Hn. rewrite (st_head _ _ S6). apply Hm. exact Hn. }
   rewrite wp_when. destruct (negb (Nat.eqb n 1)).
-  - rewrite wp_parse_error. apply After; [apply keeps_set_out; apply keeps_refl; exact I2 | reflexivity].
+  - rewrite wp_parse_error. apply After; [(apply keeps_set_out; [|reflexivity]); apply keeps_refl; exact I2 | reflexivity].
   - apply After; [apply keeps_refl; exact I2 | reflexivity].
 Qed.
 
@@ -338,7 +338,9 @@ Proof.
     assert (Rest : forall s3, keeps s2 s3 -> wp (insert_appropriately (inl h) None ;; push h ;; to_raw_text_mode ScriptData)
                     (fun r s' => step_post (KTag g) r s' /\ (is_reprocess r = true -> In 7 [9; 13])) s3).
     { intros s3 K3. rewrite wp_bind.
-      eapply (wp_insert_appropriately s2); [exact K3 | eapply keeps_late; [exact K3 | exact L1] |].
+      eapply (wp_insert_appropriately s2); [exact K3 | eapply keeps_late; [exact K3 | exact L1]
+                                            | apply known_child_ok; [exact (proj1 K3) | eapply stable_known; [exact (proj2 K3) | exact Kn]]
+                                            | discriminate |].
       intros s4 K4 _. rewrite wp_bind. unfold push. rewrite wp_modify.
       pose proof K4 as [I4 S4].
       assert (K5 : keeps s2 (set_open_elems (vpush (open_elems s4) h) s4)).
@@ -348,7 +350,9 @@ Proof.
       apply wp_to_raw_text_mode; [exact I5 | eapply keeps_late; [exact K5 | exact L1] | rewrite (st_mode _ _ S5); exact NS1 |].
       intros s' I' _. apply Fin2; [exact I' | reflexivity | right; right; right; eauto]. }
     destruct (is_fragment s2).
-    + rewrite wp_emit. apply Rest. apply keeps_set_out. apply keeps_refl. exact (keeps_TInv _ _ K2).
+    + rewrite wp_emit. apply Rest.
+      apply keeps_emit; [apply keeps_refl; exact (keeps_TInv _ _ K2) | reflexivity | reflexivity |]. cbn [op_okb].
+      rewrite (v_named_ename s2 h _ Kn), En. reflexivity.
     + rewrite wp_ret. apply Rest. apply keeps_refl. exact (keeps_TInv _ _ K2).
   - (* 8 </head> *)
     destruct P1 as [Len Hd]; [simpl; auto|]. rewrite wp_bind.
@@ -419,7 +423,9 @@ Proof.
     assert (Rest : forall s3, keeps s2 s3 -> wp (insert_appropriately (inl h) None ;; push h ;; to_raw_text_mode ScriptData)
                     (fun _ s' => head_elem s' = head_elem s /\ late s') s3).
     { intros s3 K3. rewrite wp_bind.
-      eapply (wp_insert_appropriately s2); [exact K3 | eapply keeps_late; [exact K3 | exact L1] |].
+      eapply (wp_insert_appropriately s2); [exact K3 | eapply keeps_late; [exact K3 | exact L1]
+                                            | apply known_child_ok; [exact (proj1 K3) | eapply stable_known; [exact (proj2 K3) | exact Kn]]
+                                            | discriminate |].
       intros s4 K4 _. rewrite wp_bind. unfold push. rewrite wp_modify.
       pose proof K4 as [I4 S4].
       assert (K5 : keeps s2 (set_open_elems (vpush (open_elems s4) h) s4)).
@@ -430,7 +436,9 @@ Proof.
       intros s' _ (Em & _ & _ & Eh & _). split; [|unfold late; rewrite Em; reflexivity].
       rewrite Eh, (st_head _ _ S5). pose proof K2 as [_ S2]. rewrite (st_head _ _ S2). exact H1. }
     destruct (is_fragment s2).
-    + rewrite wp_emit. apply Rest. apply keeps_set_out. apply keeps_refl. exact (keeps_TInv _ _ K2).
+    + rewrite wp_emit. apply Rest.
+      apply keeps_emit; [apply keeps_refl; exact (keeps_TInv _ _ K2) | reflexivity | reflexivity |]. cbn [op_okb].
+      rewrite (v_named_ename s2 h _ Kn), En. reflexivity.
     + rewrite wp_ret. apply Rest. apply keeps_refl. exact (keeps_TInv _ _ K2).
   - (* 10 *)
     destruct (head_named_prop _ _ _ F10 Hm) as (g & -> & Nt). apply is_n_eq in Nt.
